@@ -24,3 +24,40 @@ Theorem C08_own_reply_refuted_before_lock :
   map (fun x => let '(c, r, _, _) := x in r) (serve 300 true 0 [] [c1; c2; c3]) = [Reply 1; Reply 2; Reply 3].
 Proof. exact own_reply_refuted_before_lock. Qed.
 Print Assumptions C08_own_reply_refuted_before_lock.
+
+(* ---- race freedom of the source, statically: the lock-set discipline ---- *)
+From Coq Require Import String List.
+From UV Require Import Gen.SyncSkeleton Model.Sync Proofs.SyncProofs.
+Import ListNotations.
+Open Scope string_scope.
+Open Scope list_scope.
+
+(* soundness, in the trace model of mutexes (any valid trace, any number of threads and mutexes): two accesses made while
+   the same mutex is held are separated by an Unlock of the first thread followed by a Lock of the second - a
+   synchronises-with edge of the Go memory model, hence ordered by happens-before *)
+Theorem C08_lockset_orders : forall m t1 t2 p q r x1 w1 x2 w2, t1 <> t2 ->
+  holds m t1 p -> holds m t2 (p ++ (t1, Acc x1 w1) :: q) ->
+  let tr := p ++ (t1, Acc x1 w1) :: q ++ (t2, Acc x2 w2) :: r in
+  exists q1 q2 q3, q = q1 ++ (t1, Rel m) :: q2 ++ (t2, Acq m) :: q3 /\
+                   tr = p ++ (t1, Acc x1 w1) :: q1 ++ (t1, Rel m) :: q2 ++ (t2, Acq m) :: q3 ++ (t2, Acc x2 w2) :: r.
+Proof. exact lockset_orders. Qed.
+Print Assumptions C08_lockset_orders.
+
+(* what the decision procedure establishes for a skeleton it accepts *)
+Theorem C08_lockset_ok_spec : forall sk, lockset_ok sk = true -> forall fn v accs, In (fn, v, accs) sk ->
+  In (fn, v) ordered_otherwise \/
+  (forall a b, In a accs -> In b accs -> conflicting a b = true -> exists m, In m (a_locks a) /\ In m (a_locks b)).
+Proof. exact lockset_ok_spec. Qed.
+Print Assumptions C08_lockset_ok_spec.
+
+(* GENERATED-DATA OBLIGATION, re-checked against the source on every run: every variable of a goroutine-starting function
+   of package uhppote that is assigned inside a goroutine or after the first go statement is accessed by different
+   threads only under a common mutex (exception reviewed: ut0311.Listen's closed flag, ordered through the socket close) *)
+Theorem C08_source_disciplined : lockset_ok sync_skeleton = true.
+Proof. exact skeleton_disciplined. Qed.
+Print Assumptions C08_source_disciplined.
+
+(* the pre-repair Broadcast (F9) is rejected by the same procedure *)
+Example C08_f9_rejected :
+  lockset_ok [("uhppote.ut0311.Broadcast", "replies", [("go1", "w", [], 86%nat); ("go1", "r", [], 86%nat); ("parent", "r", [], 96%nat)])] = false.
+Proof. exact f9_rejected. Qed.
